@@ -40,7 +40,6 @@ import (
 
 	"go.mongodb.org/mongo-driver/v2/bson"
 	"google.golang.org/protobuf/proto"
-	"google.golang.org/protobuf/reflect/protoreflect"
 
 	"github.com/yorkie-team/yorkie/api/converter"
 	"github.com/yorkie-team/yorkie/api/types"
@@ -49,7 +48,6 @@ import (
 	"github.com/yorkie-team/yorkie/pkg/document/change"
 	"github.com/yorkie-team/yorkie/pkg/document/crdt"
 	"github.com/yorkie-team/yorkie/pkg/document/json"
-	"github.com/yorkie-team/yorkie/pkg/document/operations"
 	"github.com/yorkie-team/yorkie/pkg/document/presence"
 	"github.com/yorkie-team/yorkie/pkg/document/time"
 	"github.com/yorkie-team/yorkie/pkg/key"
@@ -96,6 +94,17 @@ type fuzzClient struct {
 	// (the client's own included) decoded from the wire: doc = "p applied directly" (the author
 	// executes its own operations in memory), shadow = "FromChangePack(ToChangePack(p)) applied"
 	shadow *document.InternalDocument
+	// Marshal() of the author right after producing the local change with a given clientSeq, and
+	// which of those changes were emitted by Undo/Redo
+	states   map[uint32]string
+	undoSeqs map[uint32]bool
+	// first local change after which the shadow stopped agreeing with the recorded author state
+	staleBefore    []string
+	preAuthor      *document.InternalDocument
+	preShadow      *document.InternalDocument
+	preResp        *api.ChangePack
+	firstBad       uint32
+	firstBadByUndo bool
 }
 
 type fuzzHist struct {
@@ -116,12 +125,18 @@ type fuzzHist struct {
 	lastPack *api.ChangePack
 	// createdAt keys of array elements replaced through Array.Set* (ArraySet), per history
 	replaced map[string]bool
+	// createdAt keys of values restored by undo/redo under their old identity; of text/tree nodes
+	// named by restore spans
+	restoredVals  map[string]bool
+	restoredNodes map[string]bool
+	// attribute-tombstone ids seen on more than one owner at some observed point
+	sharedIDs map[string]bool
 }
 
 func newHist(seed int64, class string, nClients int, gc bool) *fuzzHist {
 	h := &fuzzHist{r: rand.New(rand.NewSource(seed)), class: class, gc: gc,
 		sWire:  document.NewInternalDocument(pbDocKey),
-		sStore: document.NewInternalDocument(pbDocKey), seeds: &pbSeeds{pool: msgPool{}}, replaced: map[string]bool{}}
+		sStore: document.NewInternalDocument(pbDocKey), seeds: &pbSeeds{pool: msgPool{}}, replaced: map[string]bool{}, restoredVals: map[string]bool{}, restoredNodes: map[string]bool{}, sharedIDs: map[string]bool{}}
 	for i := 0; i < nClients; i++ {
 		var a time.ActorID
 		a[11] = byte(i + 1)
@@ -130,18 +145,13 @@ func newHist(seed int64, class string, nClients int, gc bool) *fuzzHist {
 		}
 		d := document.New(pbDocKey)
 		d.SetActor(a)
-		if !gc {
-			d.SetDisableGC(true)
-		}
 		go func() {
 			for range d.Events() {
 			}
 		}()
 		sh := document.NewInternalDocument(pbDocKey)
-		if !gc {
-			sh.SetDisableGC(true) // same clock handling (SyncLamport instead of SyncClocks) as the author
-		}
-		h.clients = append(h.clients, &fuzzClient{doc: d, actor: a, lastVV: time.NewVersionVector(), shadow: sh})
+		h.clients = append(h.clients, &fuzzClient{doc: d, actor: a, lastVV: time.NewVersionVector(), shadow: sh,
+			states: map[uint32]string{}, undoSeqs: map[uint32]bool{}})
 	}
 	return h
 }
@@ -414,6 +424,19 @@ func (h *fuzzHist) update(c *Ctx, i int) {
 		h.kill(c, "update-error")
 	default:
 		c.Count("step:update")
+		h.record(cl, false)
+	}
+}
+
+// record keeps what the author shows right after its newest local change.
+func (h *fuzzHist) record(cl *fuzzClient, byUndo bool) {
+	pk := cl.doc.CreateChangePack()
+	if n := len(pk.Changes); n > 0 {
+		cs := pk.Changes[n-1].ClientSeq()
+		cl.states[cs] = cl.doc.Marshal()
+		if byUndo {
+			cl.undoSeqs[cs] = true
+		}
 	}
 }
 
@@ -435,6 +458,7 @@ func (h *fuzzHist) undo(c *Ctx, i int) {
 	default:
 		h.undone = true
 		c.Count("step:undo")
+		h.record(cl, true)
 	}
 }
 
@@ -505,12 +529,6 @@ var (
 	reAttrs = regexp.MustCompile(`"attrs":\{[^{}]*\},?`)
 )
 
-func sortedChars(s string) string {
-	b := []byte(s)
-	sort.Slice(b, func(i, j int) bool { return b[i] < b[j] })
-	return string(b)
-}
-
 // mismatch reports a difference, classified against the two known C02 defects by the class of
 // the history **and** the shape of the difference.
 func (h *fuzzHist) mismatch(c *Ctx, what, a, b string) {
@@ -518,13 +536,6 @@ func (h *fuzzHist) mismatch(c *Ctx, what, a, b string) {
 	if strings.HasPrefix(what, "KNOWN[") {
 		k := strings.Index(what, "] ")
 		tag, what = what[:k+2], what[k+2:]
-	}
-	switch {
-	case tag != "":
-	case (h.class == "C") && h.moved && sortedChars(a) == sortedChars(b):
-		tag = "KNOWN[c02-array-add-anchor] "
-	case (h.class == "D") && h.styled && h.undone && reAttrs.ReplaceAllString(a, "") == reAttrs.ReplaceAllString(b, ""):
-		tag = "KNOWN[c02-text-attr-removed] "
 	}
 	// show a window around the first difference
 	i := 0
@@ -543,7 +554,14 @@ func (h *fuzzHist) mismatch(c *Ctx, what, a, b string) {
 		return pre + x[lo:hi] + post
 	}
 	a, b = win(a), win(b)
-	c.Count("oracle:" + strings.TrimSpace(tag) + what)
+	cw := what
+	if k := strings.Index(cw, " ("); k > 0 {
+		cw = cw[:k]
+	}
+	if k := strings.Index(cw, "("); k > 0 {
+		cw = cw[:k]
+	}
+	c.Count("oracle:" + strings.TrimSpace(tag) + cw)
 	if tag != "" {
 		// a known finding is written out a few times per run and counted afterwards
 		knownWritten[tag]++
@@ -608,14 +626,56 @@ func (h *fuzzHist) snapOracle(c *Ctx, who string, live *crdt.Root, pres map[stri
 			h.collectElements(seed.Root, 0)
 		}
 	}
+	h.notePending()
 	rep := h.analyseSnapshot(live, obj, pa, pb)
 	m1, m2 := root.Marshal(), obj.Marshal()
 	if m1 != m2 {
-		tag := h.explainMarshal(rep, live, m1, m2)
-		rep.add(tag, "Marshal() differs: "+firstDiff(m1, m2))
+		tags := h.explainMarshal(rep, live, m1, m2)
+		if tags == nil {
+			tags = []string{""}
+		}
+		for _, tag := range tags {
+			rep.add(tag, "Marshal() differs: "+firstDiff(m1, m2))
+		}
 	}
 	if gl := crdt.NewRoot(obj).GarbageLen(); gl != garbage && len(rep.by) == 0 {
 		rep.add("", fmt.Sprintf("GarbageLen %d became %d and no differing item was found", garbage, gl))
+	}
+	if f, ok := rep.by[""]; ok && os.Getenv("PBFUZZ_DUMP") == "snap" && !h.dumped {
+		h.dumped = true
+		fmt.Fprintf(os.Stderr, "DUMP %s unexplained: %s\nLIVE MARSHAL %s\n", who, strings.Join(f.items, "; "), m1)
+		gv := graphView(live.Object())
+		lreg := bookView(live).inst
+		keyOf := map[string]string{}
+		for k, e := range gv.all {
+			keyOf[e.CreatedAt().ToTestString()] = k
+		}
+		for k, e := range lreg {
+			keyOf[e.CreatedAt().ToTestString()] = k
+		}
+		for _, it := range f.items {
+			if strings.HasPrefix(it, "pair-") {
+				for _, l := range h.opsMentioning("styles") {
+					fmt.Fprintf(os.Stderr, "   %s\n", l)
+				}
+				break
+			}
+		}
+		for _, it := range f.items {
+			i := strings.Index(it, ":")
+			j := strings.Index(it, "(")
+			if i < 0 || j < i {
+				continue
+			}
+			t := it[i+1 : j]
+			k, ok := keyOf[t]
+			if !ok {
+				continue
+			}
+			for _, l := range h.opsMentioning(k) {
+				fmt.Fprintf(os.Stderr, "   %s: %s\n", t, l)
+			}
+		}
 	}
 	h.emit(c, "snapshot("+who+")", rep)
 }
@@ -647,67 +707,6 @@ func (h *fuzzHist) emit(c *Ctx, where string, rep *snapReport) {
 			c.Count("oracle:unexplained:" + where[:strings.Index(where, "(")])
 		}
 		c.Oracle("%s", strings.ToValidUTF8(fmt.Sprintf("%s%s: %s", prefix, where, strings.Join(items, "; ")), "?"))
-	}
-}
-
-// maskArrays drops dead position nodes, clears position tickets and sorts the nodes of every
-// array: what is left is the multiset of elements.
-func maskArrays(e *api.JSONElement) {
-	if e == nil {
-		return
-	}
-	switch body := e.Body.(type) {
-	case *api.JSONElement_JsonObject:
-		if body.JsonObject != nil {
-			for _, n := range body.JsonObject.Nodes {
-				if n != nil {
-					maskArrays(n.Element)
-				}
-			}
-		}
-	case *api.JSONElement_JsonArray:
-		if body.JsonArray == nil {
-			return
-		}
-		var keep []*api.RGANode
-		var keys []string
-		for _, n := range body.JsonArray.Nodes {
-			if n == nil || n.Element == nil {
-				continue
-			}
-			maskArrays(n.Element)
-			n.PositionCreatedAt, n.PositionMovedAt, n.PositionRemovedAt = nil, nil, nil
-			clearElemMoved(n.Element)
-			b, _ := proto.MarshalOptions{Deterministic: true}.Marshal(n)
-			keep = append(keep, n)
-			keys = append(keys, string(b))
-		}
-		idx := make([]int, len(keep))
-		for i := range idx {
-			idx[i] = i
-		}
-		sort.SliceStable(idx, func(a, b int) bool { return keys[idx[a]] < keys[idx[b]] })
-		out := make([]*api.RGANode, len(keep))
-		for i, j := range idx {
-			out[i] = keep[j]
-		}
-		body.JsonArray.Nodes = out
-	}
-}
-
-func clearElemMoved(e *api.JSONElement) {
-	var inner protoreflect.Message
-	e.ProtoReflect().Range(func(fd protoreflect.FieldDescriptor, v protoreflect.Value) bool {
-		if fd.Message() != nil {
-			inner = v.Message()
-		}
-		return true
-	})
-	if inner == nil {
-		return
-	}
-	if fd := inner.Descriptor().Fields().ByName("moved_at"); fd != nil {
-		inner.Clear(fd)
 	}
 }
 
@@ -748,58 +747,6 @@ func canonElement(e *api.JSONElement) {
 		for _, n := range body.JsonArray.Nodes {
 			if n != nil {
 				canonElement(n.Element)
-			}
-		}
-	}
-}
-
-var maskTicket = &api.TimeTicket{Lamport: -1}
-
-// maskMemberTickets: level 1 clears moved_at of every object member and replaces removed_at by a
-// marker (keeping whether it is set); level 2 clears removed_at as well.
-func maskMemberTickets(e *api.JSONElement, level int) {
-	if e == nil {
-		return
-	}
-	switch body := e.Body.(type) {
-	case *api.JSONElement_JsonObject:
-		if body.JsonObject == nil {
-			return
-		}
-		for _, n := range body.JsonObject.Nodes {
-			if n == nil || n.Element == nil {
-				continue
-			}
-			maskMemberTickets(n.Element, level)
-			var inner protoreflect.Message
-			n.Element.ProtoReflect().Range(func(fd protoreflect.FieldDescriptor, v protoreflect.Value) bool {
-				if fd.Message() != nil {
-					inner = v.Message()
-				}
-				return true
-			})
-			if inner == nil {
-				continue
-			}
-			for _, name := range []protoreflect.Name{"moved_at", "removed_at"} {
-				fd := inner.Descriptor().Fields().ByName(name)
-				if fd == nil {
-					continue
-				}
-				if name == "moved_at" || level >= 2 {
-					inner.Clear(fd)
-				} else if inner.Has(fd) {
-					inner.Set(fd, protoreflect.ValueOfMessage(proto.Clone(maskTicket).ProtoReflect()))
-				}
-			}
-		}
-	case *api.JSONElement_JsonArray:
-		if body.JsonArray == nil {
-			return
-		}
-		for _, n := range body.JsonArray.Nodes {
-			if n != nil {
-				maskMemberTickets(n.Element, level)
 			}
 		}
 	}
@@ -891,11 +838,7 @@ func (h *fuzzHist) sync(c *Ctx, i int) {
 		pbc := proto.Clone(pbReq.Changes[k]).(*api.Change)
 		pbc.Id.ServerSeq = int64(len(h.log) + 1)
 		h.logPB = append(h.logPB, pbc)
-		for _, op := range ch.Operations() {
-			if as, ok := op.(*operations.ArraySet); ok && as.CreatedAt() != nil {
-				h.replaced[as.CreatedAt().Key()] = true
-			}
-		}
+		h.noteOps([]*change.Change{ch})
 		ch.SetServerSeq(int64(len(h.log) + 1))
 		h.log = append(h.log, ch)
 		st, raw, err := storedRoundTrip(ch)
@@ -924,7 +867,19 @@ func (h *fuzzHist) sync(c *Ctx, i int) {
 	}
 	var e1, e2, e3 error
 	g := guardRun(pbTimeout, func() {
-		_, _, e1 = cl.shadow.ApplyChangesForReplay(reqS.Changes...)
+		// one change at a time, against what the author showed right after producing it
+		for _, ch := range reqS.Changes {
+			if _, _, e1 = cl.shadow.ApplyChangesForReplay(ch); e1 != nil {
+				break
+			}
+			cs := ch.ClientSeq()
+			if want, ok := cl.states[cs]; ok {
+				if cl.firstBad == 0 && mergeTextNodes(want) != mergeTextNodes(cl.shadow.Marshal()) {
+					cl.firstBad, cl.firstBadByUndo = cs, cl.undoSeqs[cs]
+				}
+				delete(cl.states, cs)
+			}
+		}
 		_, _, e2 = h.sWire.ApplyChangesForReplay(reqW.Changes...)
 		_, _, e3 = h.sStore.ApplyChangesForReplay(stored...)
 	})
@@ -959,8 +914,14 @@ func (h *fuzzHist) sync(c *Ctx, i int) {
 	for _, o := range h.clients {
 		vvs = append(vvs, o.lastVV)
 	}
+	// GC off: the documents keep GC enabled (the DisableGC mode has a contract of its own) and are
+	// simply never told that anything is stable: an empty minimum vector purges nothing
+	minVV := time.NewVersionVector()
+	if h.gc {
+		minVV = time.MinVersionVector(vvs...)
+	}
 	resp := change.NewPack(pbDocKey, change.NewCheckpoint(int64(len(h.log)), req.Checkpoint.ClientSeq), sel,
-		time.MinVersionVector(vvs...), nil)
+		minVV, nil)
 	pbResp, respW, err := throughWire(resp)
 	if err != nil {
 		c.Oracle("a response pack does not survive the wire: %v", err)
@@ -977,9 +938,33 @@ func (h *fuzzHist) sync(c *Ctx, i int) {
 		return
 	}
 	var errS error
+	// what the author's clone (Document.Root(), the working copy updaters edit) and its root show
+	// before the response: Document.ApplyChangePack executes every remote change on the clone first
+	cloneBefore, rootBefore := "", ""
+	g = guardRun(pbTimeout, func() {
+		cloneBefore = cl.doc.Root().Marshal()
+		rootBefore = cl.doc.Marshal()
+	})
+	if g.bad() {
+		h.kill(c, "client-root-panic: "+g.site)
+		return
+	}
+	if mergeTextNodes(cloneBefore) != mergeTextNodes(rootBefore) {
+		c.Count("oracle:clone-differs-from-root")
+		c.Oracle("%s", strings.ToValidUTF8("the author's clone differs from its root before a response is applied (C08): "+firstDiff(rootBefore, cloneBefore), "?"))
+	}
+	// evidence for what a purge may do: stale registrations before the response, and copies of both
+	// replicas to replay the response on without the GC step
+	cl.staleBefore = append(staleRegistrations(cl.doc.InternalDocument().Root()), staleRegistrations(cl.shadow.Root())...)
+	cl.preAuthor, cl.preShadow, cl.preResp = nil, nil, nil
+	if h.undone && h.gc && len(sel) > 0 {
+		cl.preAuthor, _ = cl.doc.InternalDocument().DeepCopy()
+		cl.preShadow, _ = cl.shadow.DeepCopy()
+		cl.preResp = pbResp
+	}
 	g = guardRun(pbTimeout, func() {
 		err = cl.doc.ApplyChangePack(respW)
-		errS = cl.shadow.ApplyChangePack(respS, !h.gc)
+		errS = cl.shadow.ApplyChangePack(respS, false)
 	})
 	if g.bad() {
 		h.kill(c, "client-apply-panic: "+g.site)
@@ -987,25 +972,26 @@ func (h *fuzzHist) sync(c *Ctx, i int) {
 	}
 	if err != nil || errS != nil {
 		if (err == nil) != (errS == nil) {
-			tag := ""
-			if (h.class == "B" || h.class == "D") && h.undone {
-				tag = "KNOWN[c15-undo-local-vs-remote-path] "
-			} else if err != nil && errS == nil {
-				// Document.ApplyChangePack executes a remote change on its clone first.  If a copy of the
-				// author's *root* takes the same response, it is the clone that has drifted from the root
-				// (C08; observed with GC disabled, where the clone treats foreign text as local)
+			// no predicate: the author (own operations executed in memory, remote ones on clone then
+			// root) and its shadow (the same changes in the same order, all from the wire) must agree on
+			// whether a response applies.  Evidence that helps to locate it is attached.
+			detail := ""
+			if err != nil && errS == nil {
 				if rc, e := cl.doc.InternalDocument().DeepCopy(); e == nil {
 					if r3, e := converter.FromChangePack(proto.Clone(pbResp).(*api.ChangePack)); e == nil {
 						var e3 error
-						g3 := guardRun(pbTimeout, func() { e3 = rc.ApplyChangePack(r3, !h.gc) })
-						if !g3.bad() && e3 == nil {
-							tag = "KNOWN[c08-clone-differs-from-root] "
+						g3 := guardRun(pbTimeout, func() { e3 = rc.ApplyChangePack(r3, false) })
+						if !g3.bad() {
+							detail = fmt.Sprintf("; a copy of the author's root takes the same response: err=%v (so the rejecting side is the clone iff nil)", e3)
 						}
 					}
 				}
 			}
-			c.Count("oracle:" + strings.TrimSpace(tag) + "response-applicability")
-			c.Oracle("%sauthor and its wire shadow disagree on applicability of a response: direct=%v wire=%v", tag, err, errS)
+			c.Count("oracle:response-applicability")
+			if os.Getenv("PBFUZZ_DUMP") == "wire" {
+				fmt.Fprintf(os.Stderr, "DUMP response-applicability client=%d gc=%v err=%v\nRESPONSE %s\nROOT  %s\nCLONE %s\n", i, h.gc, err, protoTextLong(pbResp), rootBefore, cloneBefore)
+			}
+			c.Oracle("author and its wire shadow disagree on applicability of a response: direct=%v wire=%v%s", err, errS, detail)
 		}
 		h.kill(c, "client-apply-error")
 		return
@@ -1016,6 +1002,55 @@ func (h *fuzzHist) sync(c *Ctx, i int) {
 	}
 }
 
+// purgeOnly replays the last response on the copies taken before it, GC step skipped.
+func (h *fuzzHist) purgeOnly(cl *fuzzClient) bool {
+	if cl.preAuthor == nil || cl.preShadow == nil || cl.preResp == nil || len(cl.staleBefore) == 0 {
+		return false
+	}
+	ra, e1 := converter.FromChangePack(proto.Clone(cl.preResp).(*api.ChangePack))
+	rs, e2 := converter.FromChangePack(proto.Clone(cl.preResp).(*api.ChangePack))
+	if e1 != nil || e2 != nil {
+		return false
+	}
+	ok := false
+	g := guardRun(pbTimeout, func() {
+		if cl.preAuthor.ApplyChangePack(ra, true) != nil || cl.preShadow.ApplyChangePack(rs, true) != nil {
+			return
+		}
+		ok = mergeTextNodes(cl.preAuthor.Marshal()) == mergeTextNodes(cl.preShadow.Marshal())
+	})
+	return !g.bad() && ok
+}
+
+// dedupOnly: the two Marshal() strings agree once every member that is a dedup counter with a
+// non-empty sketch on the author is deleted, and there is one.
+func (h *fuzzHist) dedupOnly(cl *fuzzClient, m1, m2 string) bool {
+	keys := map[string]bool{}
+	root := cl.doc.RootObject()
+	visit := func(o *crdt.Object) {
+		for k, e := range o.Members() {
+			if cnt, ok := e.(*crdt.Counter); ok && cnt.IsDedup() {
+				if v, ok := cnt.Value().(int32); ok && v != 0 {
+					keys[k] = true
+				}
+			}
+		}
+	}
+	visit(root)
+	root.Descendants(func(e crdt.Element, _ crdt.Container) bool {
+		if o, ok := e.(*crdt.Object); ok {
+			visit(o)
+		}
+		return false
+	})
+	if len(keys) == 0 {
+		return false
+	}
+	a, ok1 := stripKeysJSON(m1, keys)
+	b, ok2 := stripKeysJSON(m2, keys)
+	return ok1 && ok2 && a == b
+}
+
 // compareAuthor: the author's document (its own operations executed in memory) against its shadow
 // (the same changes in the same order, all decoded from the wire).  Content is the oracle;
 // bookkeeping that legitimately depends on the local/remote execution path is only counted.
@@ -1023,7 +1058,7 @@ func (h *fuzzHist) compareAuthor(c *Ctx, cl *fuzzClient) {
 	c.Count("oracle-run:wire-vs-direct")
 	d := cl.doc.InternalDocument()
 	if m1, m2 := d.Marshal(), cl.shadow.Marshal(); m1 != m2 {
-		if os.Getenv("PBFUZZ_DUMP") != "" && !h.dumped {
+		if os.Getenv("PBFUZZ_DUMP") == "wire" && !h.dumped {
 			h.dumped = true
 			fmt.Fprintf(os.Stderr, "DUMP\nPACK %s\nDIRECT %s\nWIRE   %s\n", protoTextLong(h.lastPack), m1, m2)
 		}
@@ -1034,10 +1069,24 @@ func (h *fuzzHist) compareAuthor(c *Ctx, cl *fuzzClient) {
 			return
 		}
 		what := "wire-vs-direct-marshal"
-		if (h.class == "B" || h.class == "D") && h.undone {
-			// local execution of an undo/redo and remote execution of the change it emits are two
-			// code paths (C14/C15; with GC the upstream-known "redo + peer GC deletes live key")
-			what = "KNOWN[c15-undo-local-vs-remote-path] " + what
+		switch {
+		case h.dedupOnly(cl, m1, m2):
+			// a Set/Add/ArraySet operation carries a dedup counter as JSONElementSimple: type + 4 value
+			// bytes, no HLL registers; the receiver builds an empty sketch (value 0)
+			what = "KNOWN[c09-dedup-counter-registers-not-in-operation-value] " + what
+		case cl.firstBad != 0 && cl.firstBadByUndo:
+			// the shadow stopped agreeing with the author exactly at a change emitted by Undo/Redo: what
+			// the undo did locally and what the emitted change does when executed from the wire differ
+			// (C14/C15)
+			what = fmt.Sprintf("KNOWN[c15-undo-local-vs-remote-path] %s (first divergence at the undo/redo change clientSeq %d)", what, cl.firstBad)
+		case cl.firstBad != 0:
+			what = fmt.Sprintf("%s (first divergence at the ordinary local change clientSeq %d)", what, cl.firstBad)
+		case h.purgeOnly(cl):
+			// the two agree when the same response is applied to copies of both without the GC step, and
+			// before the response a root held a tombstone registration whose createdAt belongs to a live
+			// restored instance: GarbageCollect purges by createdAt and takes the live element with it
+			// (the upstream-known "redo + peer GC deletes live key")
+			what = "KNOWN[c15-gc-purges-element-restored-under-registered-createdat] " + what + " [stale before: " + strings.Join(cl.staleBefore, "; ") + "]"
 		}
 		h.mismatch(c, what, m1, m2)
 		h.kill(c, "wire-vs-direct-mismatch")
@@ -1114,7 +1163,7 @@ func (h *fuzzHist) continuationOracle(c *Ctx) {
 		return
 	}
 	if m1, m2 := full.Marshal(), seeded.Marshal(); mergeTextNodes(m1) != mergeTextNodes(m2) {
-		if os.Getenv("PBFUZZ_DUMP") != "" {
+		if os.Getenv("PBFUZZ_DUMP") == "cont" {
 			// find the first change after the cut at which the two replicas part
 			f2 := document.NewInternalDocument(pbDocKey)
 			pre, _ := decode(h.logPB[:cut])
@@ -1138,13 +1187,112 @@ func (h *fuzzHist) continuationOracle(c *Ctx) {
 		}
 		what := fmt.Sprintf("continuation-after-snapshot(cut %d of %d)", cut, len(h.logPB))
 		if a, b := stripTreeMember(m1), stripTreeMember(m2); a != m1 && mergeTextNodes(a) == mergeTextNodes(b) {
-			// the two replicas differ inside the Tree only: concurrent tree edits that address a merged
-			// (tombstoned) paragraph or an offset inside a surrogate pair resolve differently on a
-			// snapshot-seeded tree (C02/C19 territory, tree model staged)
-			what = "KNOWN[c02-tree-continuation-after-snapshot] " + what
+			// the replicas differ inside the Tree only; locate the first change after the cut at which
+			// they part and look at what it addresses in the seeded replica's tree just before it
+			if why := h.treeContinuationEvidence(cut, decode); why != "" {
+				what = "KNOWN[c02-tree-continuation-after-snapshot] " + what + " [" + why + "]"
+			}
 		}
 		h.mismatch(c, what, m1, m2)
 	}
+}
+
+// treeContinuationEvidence replays the continuation change by change and, at the first change
+// where the replayed and the snapshot-seeded replica part, checks the two shapes the finding is
+// about: (1) a tree operation of that change addresses (parent or left sibling of from/to) a node
+// that is a tombstone in the seeded replica's tree; (2) the tree holds text that cannot be split
+// at every UTF-16 offset (a character outside the BMP, or U+FFFD left by such a split).
+func (h *fuzzHist) treeContinuationEvidence(cut int, decode func([]*api.Change) ([]*change.Change, error)) string {
+	f2 := document.NewInternalDocument(pbDocKey)
+	pre, err := decode(h.logPB[:cut])
+	if err != nil {
+		return ""
+	}
+	if _, _, err := f2.ApplyChangesForReplay(pre...); err != nil {
+		return ""
+	}
+	snap, err := converter.SnapshotToBytes(f2.RootObject(), f2.AllPresences())
+	if err != nil {
+		return ""
+	}
+	s2, err := document.NewInternalDocumentFromSnapshot(pbDocKey, int64(cut), f2.Lamport(), f2.VersionVector(), snap)
+	if err != nil {
+		return ""
+	}
+	for j := cut; j < len(h.logPB); j++ {
+		a, _ := decode(h.logPB[j : j+1])
+		b, _ := decode(h.logPB[j : j+1])
+		// the seeded replica's trees right before change j
+		tombs := map[string]bool{}
+		oddText := false
+		if sb, err := converter.SnapshotToBytes(s2.RootObject(), s2.AllPresences()); err == nil {
+			sp := &api.Snapshot{}
+			_ = proto.Unmarshal(sb, sp)
+			var walk func(e *api.JSONElement)
+			walk = func(e *api.JSONElement) {
+				switch body := e.GetBody().(type) {
+				case *api.JSONElement_JsonObject:
+					for _, n := range body.JsonObject.GetNodes() {
+						walk(n.GetElement())
+					}
+				case *api.JSONElement_JsonArray:
+					for _, n := range body.JsonArray.GetNodes() {
+						if n.GetElement() != nil {
+							walk(n.GetElement())
+						}
+					}
+				case *api.JSONElement_Tree_:
+					for _, n := range body.Tree.GetNodes() {
+						if n.GetRemovedAt() != nil {
+							tombs[pbTicketKey(n.GetId().GetCreatedAt())+":"+fmt.Sprint(n.GetId().GetOffset())] = true
+						}
+						for _, r := range n.GetValue() {
+							if r >= 0x10000 || r == 0xFFFD {
+								oddText = true
+							}
+						}
+					}
+				}
+			}
+			walk(sp.Root)
+		}
+		_, _, e1 := f2.ApplyChangesForReplay(a...)
+		_, _, e2 := s2.ApplyChangesForReplay(b...)
+		if e1 != nil || e2 != nil {
+			return ""
+		}
+		if mergeTextNodes(f2.Marshal()) == mergeTextNodes(s2.Marshal()) {
+			continue
+		}
+		// first divergence: what does change j address?
+		idKey := func(id *api.TreeNodeID) string {
+			return pbTicketKey(id.GetCreatedAt()) + ":" + fmt.Sprint(id.GetOffset())
+		}
+		treeOp := false
+		for _, op := range h.logPB[j].Operations {
+			var poss []*api.TreePos
+			if te := op.GetTreeEdit(); te != nil {
+				poss = append(poss, te.From, te.To)
+				treeOp = true
+			}
+			if ts := op.GetTreeStyle(); ts != nil {
+				poss = append(poss, ts.From, ts.To)
+				treeOp = true
+			}
+			for _, p := range poss {
+				for _, id := range []*api.TreeNodeID{p.GetParentId(), p.GetLeftSiblingId()} {
+					if id != nil && tombs[idKey(id)] {
+						return fmt.Sprintf("change %d: a tree operation addresses node %s, a tombstone in the seeded tree", j, idKey(id))
+					}
+				}
+			}
+		}
+		if treeOp && oddText {
+			return fmt.Sprintf("change %d: tree operation on a tree holding text outside the BMP / U+FFFD", j)
+		}
+		return ""
+	}
+	return ""
 }
 
 // stripTreeMember removes the value of the root member "r" (the Tree) from a Marshal() string.
@@ -1213,6 +1361,10 @@ func (h *fuzzHist) run(c *Ctx, steps int) {
 			h.update(c, i)
 		default:
 			h.sync(c, i)
+		}
+		if h.dead == "" {
+			h.observe(h.clients[i].doc.RootObject())
+			h.observe(h.sWire.RootObject())
 		}
 		if h.dead == "" && r.Intn(6) == 0 {
 			d := h.clients[i].doc
